@@ -26,9 +26,11 @@ pub enum Framing {
     Crc32,
     Crc64,
     Crc128,
+    /// a user-built stack: CRC-32 over COBS over the storage (`CrcModifier<Cobs<_>>`)
+    Crc32OverCobs,
 }
 
-pub const FRAMINGS: [Framing; 7] = [
+pub const FRAMINGS: [Framing; 8] = [
     Framing::Plain,
     Framing::Cobs,
     Framing::Crc8,
@@ -36,6 +38,7 @@ pub const FRAMINGS: [Framing; 7] = [
     Framing::Crc32,
     Framing::Crc64,
     Framing::Crc128,
+    Framing::Crc32OverCobs,
 ];
 
 impl Framing {
@@ -85,6 +88,12 @@ fn unbounded(m: &Msg, f: Framing) -> Result<PcResult<Vec<u8>>, String> {
         Framing::Crc32 => sercrc::to_allocvec_u32(&v, CRC32.digest()),
         Framing::Crc64 => sercrc::to_allocvec_u64(&v, CRC64.digest()),
         Framing::Crc128 => sercrc::to_allocvec_u128(&v, CRC128.digest()),
+        Framing::Crc32OverCobs => {
+            use postcard::ser_flavors::{AllocVec, Cobs};
+            Cobs::try_new(AllocVec::new()).and_then(|c| {
+                postcard::serialize_with_flavor(&v, sercrc::CrcModifier::new(c, CRC32.digest()))
+            })
+        }
     })
 }
 
@@ -101,6 +110,12 @@ fn to_slice(m: &Msg, f: Framing, buf: &mut [u8]) -> Result<PcResult<(isize, Vec<
             Framing::Crc32 => sercrc::to_slice_u32(&v, buf, CRC32.digest()),
             Framing::Crc64 => sercrc::to_slice_u64(&v, buf, CRC64.digest()),
             Framing::Crc128 => sercrc::to_slice_u128(&v, buf, CRC128.digest()),
+            Framing::Crc32OverCobs => {
+                use postcard::ser_flavors::{Cobs, Slice};
+                Cobs::try_new(Slice::new(buf)).and_then(|c| {
+                    postcard::serialize_with_flavor(&v, sercrc::CrcModifier::new(c, CRC32.digest()))
+                })
+            }
         };
         r.map(|s| (s.as_ptr() as isize - base, s.to_vec()))
     })
@@ -110,6 +125,8 @@ pub const HCAPS: [usize; 37] = [
     0, 1, 2, 3, 4, 5, 6, 7, 8, 9, 10, 11, 12, 13, 14, 15, 16, 17, 18, 19, 20, 30, 31, 32, 33, 34,
     126, 127, 128, 129, 130, 253, 254, 255, 256, 257, 258,
 ];
+
+pub const HCAPS_CRC: [usize; 14] = [0, 1, 2, 3, 4, 8, 9, 10, 16, 17, 18, 19, 20, 32];
 
 fn to_hvec(m: &Msg, f: Framing, cap: usize) -> Option<Result<PcResult<Vec<u8>>, String>> {
     let v = m.ser();
@@ -126,8 +143,23 @@ fn to_hvec(m: &Msg, f: Framing, cap: usize) -> Option<Result<PcResult<Vec<u8>>, 
             }
         };
     }
-    if !matches!(f, Framing::Plain | Framing::Cobs | Framing::Crc32) {
-        return None;
+    macro_rules! go_crc {
+        ($($b:literal),*) => {
+            match cap {
+                $($b => Some(sut::call(|| match f {
+                    Framing::Crc8 => sercrc::to_vec_u8::<_, $b>(&v, CRC8.digest()).map(|x| x.to_vec()),
+                    Framing::Crc16 => sercrc::to_vec_u16::<_, $b>(&v, CRC16.digest()).map(|x| x.to_vec()),
+                    Framing::Crc64 => sercrc::to_vec_u64::<_, $b>(&v, CRC64.digest()).map(|x| x.to_vec()),
+                    Framing::Crc128 => sercrc::to_vec_u128::<_, $b>(&v, CRC128.digest()).map(|x| x.to_vec()),
+                    _ => unreachable!(),
+                })),)*
+                _ => None,
+            }
+        };
+    }
+    if matches!(f, Framing::Crc8 | Framing::Crc16 | Framing::Crc64 | Framing::Crc128) {
+        // the other checksum widths over heapless storage: a reduced capacity set
+        return go_crc!(0, 1, 2, 3, 4, 8, 9, 10, 16, 17, 18, 19, 20, 32);
     }
     go!(
         0, 1, 2, 3, 4, 5, 6, 7, 8, 9, 10, 11, 12, 13, 14, 15, 16, 17, 18, 19, 20, 30, 31, 32, 33,
@@ -317,7 +349,7 @@ fn exec_c05(t: &C05Trace, out: &mut Outcome<C05Trace>) {
             }
         };
         let l = u.len();
-        if fr == Framing::Cobs {
+        if matches!(fr, Framing::Cobs | Framing::Crc32OverCobs) && fr == Framing::Cobs {
             // a full COBS block: 254 non-zero bytes in a row in the plain encoding
             let mut run = 0usize;
             let mut maxrun = 0usize;
@@ -435,13 +467,13 @@ fn exec_c05(t: &C05Trace, out: &mut Outcome<C05Trace>) {
                     out.fault(f::SLICE_FULL);
                     if c == 0 {
                         out.probe(p::CAP_ZERO);
-                        if fr == Framing::Cobs {
+                        if matches!(fr, Framing::Cobs | Framing::Crc32OverCobs) {
                             out.probe(p::COBS_PLACEHOLDER_FAILS);
                         }
                     }
                     if c + 1 == l {
                         out.probe(p::FAIL_LAST_BYTE);
-                        if fr == Framing::Cobs {
+                        if matches!(fr, Framing::Cobs | Framing::Crc32OverCobs) {
                             out.probe(p::COBS_SENTINEL_FAILS);
                         }
                     }
@@ -485,13 +517,20 @@ fn exec_c05(t: &C05Trace, out: &mut Outcome<C05Trace>) {
             }
         }
         // ---- heapless vectors: instantiated capacities up to L+2 (and the next one above)
-        if matches!(fr, Framing::Plain | Framing::Cobs | Framing::Crc32) {
+        {
+            let hcaps: &[usize] = if matches!(fr, Framing::Plain | Framing::Cobs | Framing::Crc32) {
+                &HCAPS
+            } else if fr == Framing::Crc32OverCobs {
+                &[]
+            } else {
+                &HCAPS_CRC
+            };
             let caps: Vec<usize> = match &t.focus {
                 Some(fc) if fc.storage == Storage::HVec => vec![fc.cap],
                 Some(_) => vec![],
                 None => {
-                    let mut v: Vec<usize> = HCAPS.iter().copied().filter(|b| *b <= l + 2).collect();
-                    if let Some(nx) = HCAPS.iter().copied().find(|b| *b > l + 2) {
+                    let mut v: Vec<usize> = hcaps.iter().copied().filter(|b| *b <= l + 2).collect();
+                    if let Some(nx) = hcaps.iter().copied().find(|b| *b > l + 2) {
                         v.push(nx);
                     }
                     v
@@ -676,7 +715,7 @@ impl Scenario for C05 {
         Some(C05Trace { msg: t.msg.clone(), focus: Some(Focus { framing, storage, cap: ctx[3] as usize }) })
     }
     fn rule() -> &'static str {
-        "one case = one value (dynamic shape over the whole serde data model, boundary-biased) x one framing (plain, COBS, CRC-8/16/32/64/128) with the fault 'sink runs out at byte c' enumerated completely: every slice capacity c in 0..=L+2 at both guard placements, every instantiated heapless capacity <= L+2 and the next one above; plus size counter, Vec, VecDeque, recording Extend sink. distinct_nontrivial counts distinct (set of kinds in the shape, output length L, framing) with L >= 2, so that at least one capacity fails after a partial write."
+        "one case = one value (dynamic shape over the whole serde data model, boundary-biased) x one framing (plain, COBS, CRC-8/16/32/64/128, CRC-32 over COBS) with the fault 'sink runs out at byte c' enumerated completely: every slice capacity c in 0..=L+2 at both guard placements, every instantiated heapless capacity <= L+2 and the next one above; plus size counter, Vec, VecDeque, recording Extend sink. distinct_nontrivial counts distinct (set of kinds in the shape, output length L, framing) with L >= 2, so that at least one capacity fails after a partial write."
     }
     fn real_components() -> &'static [&'static str] {
         &[
@@ -697,7 +736,7 @@ impl Scenario for C05 {
         vec![
             "Yardstick for bytes and length is the real unbounded serialisation of the same value and framing (to_allocvec / to_allocvec_cobs / crc::to_allocvec_uW), as the statement says; a value whose unbounded serialisation fails is skipped and counted.".into(),
             "'Ordinary value' excludes values that go through Serializer::collect_str: for them any Err satisfies the too-small case (postcard reports CollectStrError when the sink runs out in the second formatting pass); threshold and bounds checks are unchanged.".into(),
-            "heapless capacities are const generics: instantiated for 0-20, 30-34, 126-130, 253-258 with plain, COBS and CRC-32 framing.".into(),
+            "heapless capacities are const generics: instantiated for 0-20, 30-34, 126-130, 253-258 with plain, COBS and CRC-32 framing, and for 0-4, 8-10, 16-20, 32 with CRC-8/16/64/128 framing.".into(),
             "Out-of-bounds writes are observed through canaries (512-byte windows per call, full arena per value) and guard pages (SIGSEGV is caught by the supervising process); under Miri through exact-size allocations.".into(),
         ]
     }
